@@ -3,7 +3,7 @@ from lib import core, propgen
 
 ID = 'C17'
 UNITS = ['hier_inversions', 'hier_gauc', 'hier_measures', 'index_labels']
-TRANSLATORS = ['wrapfuncs', 'wrapfuncs2']
+TRANSLATORS = ['wrapfuncs', 'wrapfuncs2', 'hierfuncs']
 NOT_COVERED = ('hierarchy.evaluate / _align_intervals (they go through adjust_intervals, C13); frame quantisation off dyadic frame sizes takes the '
                'frame indices from the implementation; uint8 level storage (<= 255 levels)')
 ASSUMPTIONS = ['scipy sparse slicing / np.unique(return_counts) / searchsorted as modelled']
